@@ -752,3 +752,727 @@ def compressed_routes(cx):
 
                 cx.check("PEPS3D.local_expectation (generic compressed route inherited from TensorNetworkGenVector) == dense value",
                          dict(geo=geo_json(geo), dtype=dtype, where=jw(w), normalized=nrm), t_le3)
+
+
+# ----------------------------------------------------------------------------------------------
+# 1D: canonical-form and environment routes of MatrixProductState
+# ----------------------------------------------------------------------------------------------
+
+def _spin_ops(d):
+    """spin-S operators (S=(d-1)/2) in the basis m = S, S-1, ..., -S (written from the textbook formulas)"""
+    S = (d - 1) / 2
+    m = S - np.arange(d)
+    sz = np.diag(m).astype(complex)
+    sp = np.zeros((d, d), dtype=complex)
+    for a in range(d - 1):  # <m+1| S+ |m> = sqrt(S(S+1) - m(m+1)) with m = m[a+1]
+        sp[a, a + 1] = np.sqrt(S * (S + 1) - m[a + 1] * (m[a + 1] + 1))
+    sx = (sp + sp.conj().T) / 2
+    sy = (sp - sp.conj().T) / 2j
+    return {"X": sx, "Y": sy, "Z": sz}
+
+
+@driver("C13", "mps-canonical-and-environment-routes", chunks=6, timeout=300,
+        bound="MatrixProductState with L in 1..8 (bond 1..3 mixed, site dims 2..3 mixed), open (all routes) and periodic "
+              "(environment route, partial_trace_to_mpo, partial_trace_compress), 4 dtypes, stored exponents; where = int "
+              "or tuple of 1..3 sites in any order; info in {None, {}, 'calc', a true record after canonicalize_}; "
+              "partial_trace_to_dense_canonical, local_expectation_canonical, compute_local_expectation_canonical "
+              "(inplace or not), compute_local_expectation_via_envs, compute_local_expectation(method=...), magnetization "
+              "(X/Y/Z, spin-1/2 and spin-1, normalised state), correlation (normalised state), partial_trace_to_mpo "
+              "(list / unsorted list / slice keep, rescale_sites or not), partial_trace_compress + logneg_subsys "
+              "(double precision, eps=1e-11: spectrum of the compressed state == spectrum of the dense reduced state; "
+              "default lateral method 'isvd' only with uniform bonds because scipy 1.18 interpolative svd fails on "
+              "rectangular LinearOperators, method 'svd' with mixed bonds)")
+def mps_routes(cx):
+    import warnings
+
+    warnings.filterwarnings("ignore")
+    rng = cx.rng
+    Ls = [1, 2, 3, 4, 6] if cx.quick else [1, 2, 3, 4, 5, 6, 7, 8]
+    expos = ["none", "attr", "equalize"]
+    reps = 2 if cx.quick else 4
+    for L, cyclic, rep in itertools.product(Ls, (False, True), range(reps)):
+        if cyclic and L < 2:
+            continue
+        for di, dtype in enumerate(DTYPES):
+            how = expos[(di + rep + L) % 3]
+            if not cx.mine():
+                continue
+            if cx.out_of_time():
+                cx.inconclusive.append("mps-canonical-and-environment-routes: time budget exhausted")
+                return
+            mps = make_mps(rng, L, dtype, cyclic=cyclic)
+            set_exponent(mps, rng, how, dtype)
+            _mps_one_state(cx, rng, mps, L, cyclic, dtype, how, rep)
+
+
+def _tensors_equal(a, b):
+    if a.num_tensors != b.num_tensors:
+        return False
+    for ta, tb in zip(a.tensors, b.tensors):
+        if ta.inds != tb.inds or ta.shape != tb.shape or not np.array_equal(np.asarray(ta.data), np.asarray(tb.data)):
+            return False
+    return True
+
+
+def _mps_one_state(cx, rng, mps, L, cyclic, dtype, how, rep):
+    base = dict(L=L, cyclic=cyclic, dtype=dtype, exponent=how != "none", expo=how, rep=rep)
+    tol = tol_of(dtype, 3)
+    dn = Dense(mps)
+    sites = dn.sites
+    wheres = pick_wheres(rng, sites, count=5)
+    ops = {w: rand_op(rng, dn.dim(w)) for w in wheres}
+    single = dtype in ("float32", "complex64")
+
+    def info_variant(kind, m):
+        if kind == "None":
+            return None
+        if kind == "empty":
+            return {}
+        if kind == "calc":
+            return {"cur_orthog": "calc"}
+        info = {}
+        m.canonicalize_(int(rng.integers(L)), info=info)
+        return info
+
+    if not cyclic:
+        for w in wheres:
+            G = ops[w]
+            forms = [("tuple", w)] + ([("bare-int", w[0])] if len(w) == 1 else [])
+            for (wform, warg), nrm, ik in itertools.product(forms, (True, False), ("None", "empty", "calc", "record")):
+                if cx.quick and ik in ("empty", "calc") and not nrm:
+                    continue
+                p = dict(base, where=jw(w), where_form=wform, normalized=nrm, info=ik)
+                m1 = mps.copy()
+                i1 = info_variant(ik, m1)
+
+                def t_ptc(m1=m1, i1=i1, warg=warg, w=w, nrm=nrm):
+                    r = m1.partial_trace_to_dense_canonical(warg, normalized=nrm, info=i1)
+                    e = cmp_matrix(r, dn.rdm(w, nrm), 1.0 if nrm else dn.norm2, tol, "partial_trace_to_dense_canonical",
+                                   trace=1.0 if nrm else None)
+                    if e:
+                        return e
+                    after = Dense(m1)
+                    if np.abs(after.psi - dn.psi).max() > 30 * tol * dn.norm2 ** 0.5:
+                        return "the state denoted by the MPS changed"
+
+                cx.check("partial_trace_to_dense_canonical(where) == dense partial trace (site order as given), state unchanged",
+                         p, t_ptc)
+                m2 = mps.copy()
+                i2 = info_variant(ik, m2)
+
+                def t_lec(m2=m2, i2=i2, warg=warg, w=w, nrm=nrm, G=G):
+                    r = m2.local_expectation_canonical(G, warg, normalized=nrm, info=i2)
+                    return cmp_scalar(r, dn.expec(G, w, nrm), dn.scale(G, nrm), tol)
+
+                cx.check("local_expectation_canonical(G, where) == dense value", p, t_lec)
+
+    # ---- many terms at once ---------------------------------------------------------------------
+    terms = {w: ops[w] for w in wheres}
+    methods = ["envs"] + ([] if cyclic else ["canonical"])
+    for method, nrm, ra in itertools.product(methods, (True, False), (True, False)):
+        for key_form in ("tuple", "bare-int"):
+            if key_form == "bare-int":
+                tt = {(w[0] if len(w) == 1 else w): G for w, G in terms.items()}
+            else:
+                tt = terms
+            for inplace, ik in ((False, "None"), (True, "record"), (False, "record")):
+                if method == "envs" and (inplace or ik != "None"):
+                    continue
+                if key_form == "bare-int" and (inplace or ik != "None" or not ra):
+                    continue
+                p = dict(base, method=method, normalized=nrm, return_all=ra, key_form=key_form, inplace=inplace, info=ik,
+                         nterms=len(tt))
+                m3 = mps.copy()
+                i3 = info_variant(ik, m3) if method == "canonical" else None
+                before = m3.copy()
+
+                def t_cle(m3=m3, i3=i3, before=before, method=method, nrm=nrm, ra=ra, tt=tt, inplace=inplace, via=0):
+                    kw = dict(normalized=nrm, return_all=ra)
+                    if via == 0:
+                        if method == "canonical":
+                            kw.update(info=i3, inplace=inplace)
+                        r = m3.compute_local_expectation(tt, method=method, **kw)
+                    elif method == "canonical":
+                        r = m3.compute_local_expectation_canonical(tt, info=i3, inplace=inplace, **kw)
+                    else:
+                        r = m3.compute_local_expectation_via_envs(tt, **kw)
+                    sc = max(dn.scale(G, nrm) for G in tt.values())
+                    refs = {k: dn.expec(G, k if isinstance(k, tuple) else (k,), nrm) for k, G in tt.items()}
+                    if ra:
+                        if set(r) != set(tt):
+                            return f"keys {list(r)} != {list(tt)}"
+                        for k in tt:
+                            e = cmp_scalar(r[k], refs[k], sc, tol, f"term {k}")
+                            if e:
+                                return e
+                    else:
+                        e = cmp_scalar(r, sum(refs.values()), sc * len(tt), tol, "sum of terms")
+                        if e:
+                            return e
+                    if not inplace and not _tensors_equal(m3, before):
+                        return "inplace=False but the tensors of the state were modified"
+                    if np.abs(Dense(m3).psi - dn.psi).max() > 30 * tol * dn.norm2 ** 0.5:
+                        return "the state denoted by the MPS changed"
+
+                cx.check(f"MatrixProductState.compute_local_expectation(method='{method}') == dense values", p, t_cle)
+                if key_form == "tuple":
+                    m3 = mps.copy()
+                    i3 = info_variant(ik, m3) if method == "canonical" else None
+                    before = m3.copy()
+                    name = "compute_local_expectation_canonical" if method == "canonical" else "compute_local_expectation_via_envs"
+                    cx.check(f"MatrixProductState.{name}(terms) == dense values", p,
+                             lambda f=t_cle, m3=m3, i3=i3, before=before, method=method, nrm=nrm, ra=ra, tt=tt, inplace=inplace:
+                             f(m3, i3, before, method, nrm, ra, tt, inplace, 1))
+
+    # ---- magnetization / correlation (stated for normalised states) ----------------------------------
+    if not cyclic and how == "none":
+        mn = mps.copy()
+        nrm_fac = dn.norm2 ** 0.5
+        mn[0].modify(data=mn[0].data / np.asarray(nrm_fac).astype(mn[0].data.real.dtype))
+        dnn = Dense(mn)
+        for i in sorted({0, L - 1, int(rng.integers(L))}):
+            d = dnn.psi.shape[i]
+            for direction in "XYZ":
+                S = _spin_ops(d)[direction]
+
+                def t_mag(i=i, direction=direction, S=S):
+                    r = mn.copy().magnetization(i, direction)
+                    return cmp_scalar(r, dnn.expec(S, (i,), False), 1.0, tol, f"<S{direction}>")
+
+                cx.check("magnetization(i, direction) == <psi|S_direction(i)|psi> of the normalised dense state",
+                         dict(base, i=i, direction=direction, spin=(d - 1) / 2), t_mag)
+        if L >= 2:
+            for _ in range(2):
+                i, j = [int(x) for x in rng.permutation(L)[:2]]
+                A, B = rand_op(rng, dnn.psi.shape[i]), rand_op(rng, dnn.psi.shape[j])
+                for useB in (True, False):
+                    if not useB and dnn.psi.shape[i] != dnn.psi.shape[j]:
+                        continue
+
+                    def t_cor(i=i, j=j, A=A, B=B, useB=useB):
+                        Bx = B if useB else A
+                        r = mn.correlation(A, i, j, B=Bx) if useB else mn.correlation(A, i, j)
+                        ref = dnn.expec(np.kron(A, Bx), (i, j), False) - dnn.expec(A, (i,), False) * dnn.expec(Bx, (j,), False)
+                        sc = np.linalg.norm(A) * np.linalg.norm(Bx)
+                        return cmp_scalar(r, ref, sc, tol, "correlation")
+
+                    cx.check("correlation(A, i, j, B) == <A_i B_j> - <A_i><B_j> of the normalised dense state",
+                             dict(base, i=i, j=j, B=useB), t_cor)
+
+    # ---- partial trace to an MPO ------------------------------------------------------------------
+    keeps = []
+    for w in wheres:
+        keeps.append(("list", list(w)))
+    keeps.append(("all", list(range(L))))
+    if L >= 3:
+        a = int(rng.integers(0, L - 1))
+        b = int(rng.integers(a + 1, L))
+        keeps.append(("slice", slice(a, b)))
+    for (kform, keep), resc in itertools.product(keeps, (True, False)):
+        ks = list(range(L))[keep] if isinstance(keep, slice) else sorted(keep)
+        if not ks:
+            continue
+        p = dict(base, keep=str(keep) if isinstance(keep, slice) else keep, keep_form=kform, rescale_sites=resc)
+
+        def t_mpo(keep=keep, ks=ks, resc=resc):
+            rho = mps.partial_trace_to_mpo(keep, rescale_sites=resc)
+            lab = list(range(len(ks))) if resc else ks
+            up = [rho.upper_ind(i) for i in lab]
+            lo = [rho.lower_ind(i) for i in lab]
+            if set(rho.outer_inds()) != set(up) | set(lo):
+                return f"outer indices {sorted(rho.outer_inds())} are not the upper+lower indices of the kept sites"
+            D = dn.dim(ks)
+            M = dense_of(rho, up + lo).reshape(D, D)
+            e = cmp_matrix(M, dn.rdm(ks, False), dn.norm2, tol, "MPO dense (rows = upper indices)")
+            if e:
+                return e
+            if resc:
+                M2 = np.asarray(rho.to_dense())
+                e = cmp_matrix(M2, dn.rdm(ks, False), dn.norm2, tol, "rho.to_dense()")
+                if e:
+                    return e
+                return cmp_scalar(rho.trace(), dn.norm2, dn.norm2, tol, "rho.trace()")
+
+        cx.check("partial_trace_to_mpo(keep): rows (upper indices) = ket, columns (lower indices) = bra of the dense reduced state",
+                 p, t_mpo)
+
+    # ---- compressed partial trace of two blocks ----------------------------------------------------
+    if single or L < 2:
+        return
+    blocks = []
+    for _ in range(3):
+        cuts = sorted(int(x) for x in rng.choice(np.arange(0, L + 1), size=min(4, L + 1), replace=False))
+        if len(cuts) < 4:
+            cuts = [0, 1, 1, 2] if L >= 2 else cuts
+        a0, a1, b0, b1 = cuts
+        if a1 > a0 and b1 > b0:
+            blocks.append((tuple(range(a0, a1)), tuple(range(b0, b1))))
+    blocks.append(((0,), (L - 1,)))
+    if L >= 2:
+        blocks.append((tuple(range(0, L // 2)), tuple(range(L // 2, L))))
+    bsz = [mps.bond_size(i, (i + 1) % L) for i in range(L if cyclic else L - 1)]
+    methods = ["svd"] + ([("isvd", None)] if len(set(bsz)) <= 1 else [])
+    seen = set()
+    variants = [(False, mps, dn)]
+    if how == "none":
+        mn = mps.copy()
+        mn[0].modify(data=mn[0].data / dn.norm2 ** 0.5)
+        variants.append((True, mn, Dense(mn)))
+    for (snorm, mps, dn), (sysa, sysb), method, renorm in itertools.product(variants, blocks, methods, (True, False)):
+        if (snorm, sysa, sysb, str(method), renorm) in seen or set(sysa) & set(sysb):
+            continue
+        seen.add((snorm, sysa, sysb, str(method), renorm))
+        pure = (len(sysa) + len(sysb) == L) and not cyclic
+        p = dict(base, sysa=list(sysa), sysb=list(sysb), method=str(method), renorm=renorm, pure_bipartition=pure, state_normalized=snorm)
+
+        def t_ptcmp(sysa=sysa, sysb=sysb, method=method, renorm=renorm, mps=mps, dn=dn):
+            r = mps.partial_trace_compress(sysa, sysb, eps=1e-11, method=method, renorm=renorm)
+            want = {"kA", "kB", "bA", "bB"}
+            if set(r.outer_inds()) != want:
+                return f"outer indices {sorted(r.outer_inds())}"
+            M = dense_of(r, ["kA", "kB", "bA", "bB"])
+            M = M.reshape(M.shape[0] * M.shape[1], -1)
+            ref = dn.rdm(sysa + sysb, normalized=renorm)
+            sc = 1.0 if renorm else dn.norm2
+            if np.abs(M - M.conj().T).max() > 1e-7 * sc:
+                return f"not hermitian: {np.abs(M - M.conj().T).max():.2e}"
+            ev = np.sort(np.linalg.eigvalsh((M + M.conj().T) / 2))[::-1]
+            evr = np.sort(np.linalg.eigvalsh(ref))[::-1]
+            k = min(len(ev), len(evr))
+            if np.abs(ev[:k] - evr[:k]).max() > 1e-7 * sc:
+                return f"spectrum differs from the dense reduced state by {np.abs(ev[:k] - evr[:k]).max():.2e}"
+            if np.abs(ev[k:]).sum() + np.abs(evr[k:]).sum() > 1e-7 * sc:
+                return f"spectral weight outside the common rank: {np.abs(ev[k:]).sum():.2e} / {np.abs(evr[k:]).sum():.2e}"
+
+        cx.check("partial_trace_compress(sysa, sysb): hermitian, requested normalisation, spectrum == dense reduced state of A+B",
+                 p, t_ptcmp)
+        if renorm:
+            def t_ln(sysa=sysa, sysb=sysb, method=method, mps=mps, dn=dn):
+                r = mps.logneg_subsys(sysa, sysb, compress_opts=dict(eps=1e-11, method=method))
+                ref = dn.rdm(sysa + sysb, True)
+                da, db = dn.dim(sysa), dn.dim(sysb)
+                pt = ref.reshape(da, db, da, db).transpose(2, 1, 0, 3).reshape(da * db, da * db)
+                want = max(0.0, float(np.log2(np.abs(np.linalg.eigvalsh(pt)).sum())))
+                return cmp_scalar(r, want, 1.0, 1e-6, "logarithmic negativity")
+
+            cx.check("logneg_subsys(sysa, sysb) == log2 trace norm of the partial transpose of the dense reduced state", p, t_ln)
+
+
+# ----------------------------------------------------------------------------------------------
+# 2D / 3D: boundary-contraction and plaquette / cell environment routes with an untruncating cap
+# ----------------------------------------------------------------------------------------------
+
+CHI = 4096  # above every exact boundary bond of the domain (largest: 3x3, D=3 -> 3**6)
+
+
+def _lex_pairs(rng, sites, count):
+    """pairs of distinct sites in ascending lexicographic order (the only order the 2D plaquette map knows), near and far"""
+    n = len(sites)
+    out = []
+    for _ in range(4 * count):
+        a, b = sorted(int(x) for x in rng.permutation(n)[:2])
+        pr = (sites[a], sites[b])
+        if pr not in out:
+            out.append(pr)
+        if len(out) >= count:
+            break
+    return out
+
+
+@driver("C13", "lattice-boundary-routes-2d", chunks=6, timeout=300,
+        bound="PEPS.compute_local_expectation / compute_norm / normalize and compute_plaquette_environments on PEPS 1xN, Nx1, "
+              "2x2, 2x3, 3x2, 3x3 (bond 1..3, site dim 1..3, open; 3x3 / 3x2 with periodic directions), 4 dtypes, stored "
+              "exponents; max_bond=4096 (>= exact boundary bond) and cutoff=0; mode in {mps, full-bond, projector}, canonize "
+              "on/off, bra/ket layered or flat, autogroup on/off, normalized or not, return_all or summed, supplied or "
+              "computed plaquette environments; terms on single sites and on site pairs (ascending, descending, distant)")
+def lattice_2d(cx):
+    import warnings
+
+    import quimb.tensor as qtn
+
+    warnings.filterwarnings("ignore")
+    rng = cx.rng
+    if cx.quick:
+        geos = [(1, 3, 2, 2, False), (3, 1, 2, 2, False), (2, 2, 3, 2, False), (2, 3, 2, 3, False), (3, 3, 2, 2, False),
+                (3, 2, 2, 2, (False, True))]
+    else:
+        geos = [(1, 1, 1, 2, False), (1, 3, 2, 2, False), (3, 1, 3, 2, False), (2, 2, 3, 3, False), (2, 2, 1, 2, False),
+                (2, 3, 2, 2, False), (3, 2, 2, 3, False), (3, 3, 2, 2, False), (2, 2, 2, 1, False), (3, 3, 2, 2, True),
+                (2, 3, 2, 2, (True, False)), (3, 2, 2, 2, (False, True)), (3, 3, 2, 2, (True, False))]
+    expos = ["none", "attr", "equalize"]
+    modes = ["mps", "full-bond", "projector"]
+    for gi, (Lx, Ly, D, pd, cyc) in enumerate(geos):
+        for di, dtype in enumerate(DTYPES):
+            if cx.quick and di >= 2 and (gi + di) % 2:
+                continue
+            how = expos[(gi + di) % 3]
+            if not cx.mine():
+                continue
+            if cx.out_of_time():
+                cx.inconclusive.append("lattice-boundary-routes-2d: time budget exhausted")
+                return
+            geo = ("peps", Lx, Ly, D, pd, cyc)
+            tn = build_state(rng, geo, dtype)
+            set_exponent(tn, rng, how, dtype)
+            base = dict(geo=geo_json(geo), dtype=dtype, exponent=how != "none", expo=how, unit_dim=(Lx == 1 or Ly == 1))
+            tol = tol_of(dtype, 30)
+            dn = Dense(tn)
+            sites = dn.sites
+            n = len(sites)
+            singles = [sites[int(x)] for x in rng.permutation(n)[:2]]
+            pairs = _lex_pairs(rng, sites, 3) if n >= 2 else []
+            terms = {s: rand_op(rng, dn.dim((s,))) for s in singles}
+            terms.update({pr: rand_op(rng, dn.dim(pr)) for pr in pairs})
+
+            def ref(where, nrm):
+                w = (where,) if where in sites else where
+                return dn.expec(terms_all[where], w, nrm)
+
+            terms_all = dict(terms)
+            optgrid = list(itertools.product(modes, (True, False), (("KET", "BRA"), None), (True, False)))
+            if cx.quick:
+                optgrid = [optgrid[int(x)] for x in rng.permutation(len(optgrid))[:6]]
+            for (mode, canonize, lt, ag), nrm in itertools.product(optgrid, (True, False)):
+                p = dict(base, mode=mode, canonize=canonize, layered=lt is not None, autogroup=ag, normalized=nrm, order="ascending",
+                         nterms=len(terms))
+
+                kw = dict(max_bond=CHI, cutoff=0.0, mode=mode, canonize=canonize, layer_tags=lt, autogroup=ag, normalized=nrm,
+                          contract_optimize="greedy")
+
+                def t_cle(kw=kw, nrm=nrm, terms=terms):
+                    r = tn.compute_local_expectation(terms, return_all=True, **kw)
+                    if set(r) != set(terms):
+                        return f"keys {list(r)}"
+                    tot = 0
+                    for w, G in terms.items():
+                        e, nn = r[w]
+                        if nrm:
+                            err = cmp_scalar(e / nn, ref(w, True), dn.scale(G, True), tol, f"term {w} (value / local norm)")
+                            if err:
+                                return err
+                        tot += ref(w, nrm)
+                    if not nrm and float(tn.exponent) != 0.0:
+                        return None  # (unnormalised values with a stored exponent: see the contract on the returned pairs)
+                    s = tn.compute_local_expectation(terms, return_all=False, **kw)
+                    return cmp_scalar(s, tot, max(dn.scale(G, nrm) for G in terms.values()) * len(terms), tol, "summed value")
+
+                cx.check("PEPS.compute_local_expectation (boundary contraction, untruncating) == dense values", p, t_cle)
+
+                def t_pairs(kw=kw, nrm=nrm, terms=terms):
+                    r = tn.compute_local_expectation(terms, return_all=True, **kw)
+                    for w, G in terms.items():
+                        e, nn = r[w]
+                        err = cmp_scalar(e, ref(w, False), dn.scale(G, False), tol, f"term {w} (unnormalised value)")
+                        if err:
+                            return err
+                        if nrm:
+                            err = cmp_scalar(nn, dn.norm2, dn.norm2, tol, f"term {w} (local norm)")
+                            if err:
+                                return err
+                        elif nn is not None:
+                            return f"normalized=False but a local norm {nn} is returned"
+                    if not nrm:
+                        s = tn.compute_local_expectation(terms, return_all=False, **kw)
+                        return cmp_scalar(s, sum(ref(w, False) for w in terms),
+                                          max(dn.scale(G, False) for G in terms.values()) * len(terms), tol, "summed value")
+
+                cx.check("PEPS.compute_local_expectation(return_all=True): pairs are (<psi|G|psi>, local <psi|psi>) of the dense state",
+                         p, t_pairs)
+            # reversed pair (descending lexicographic order): the factors of G must follow the order given
+            for pr in pairs[:2]:
+                rp = (pr[1], pr[0])
+                G = rand_op(rng, dn.dim(rp))
+                terms_all[rp] = G
+                for nrm in (True, False):
+                    def t_rev(rp=rp, G=G, nrm=nrm):
+                        r = tn.compute_local_expectation({rp: G}, max_bond=CHI, cutoff=0.0, normalized=nrm, contract_optimize="greedy")
+                        return cmp_scalar(r, dn.expec(G, rp, nrm), dn.scale(G, nrm), tol)
+
+                    cx.check("PEPS.compute_local_expectation (boundary contraction, untruncating) == dense values",
+                             dict(base, mode="mps", canonize=True, layered=True, autogroup=True, normalized=nrm, order="descending",
+                                  where=jw(rp), nterms=1), t_rev)
+            # norm and normalize
+            seqs = [None, ("xmin", "xmax"), ("ymin",), ("xmax", "ymin", "xmin", "ymax")]
+            for (mode, canonize, lt), eq in itertools.product(
+                    [(m, c, l) for m in modes for c in (True, False) for l in (("KET", "BRA"), None)][:: (3 if cx.quick else 1)],
+                    (False, True)):
+                seq = seqs[int(rng.integers(len(seqs)))]
+                if mode == "full-bond" and eq:
+                    continue  # documented as not implemented (explicit NotImplementedError)
+                p = dict(base, mode=mode, canonize=canonize, layered=lt is not None, equalize_norms=eq, sequence=list(seq) if seq else None)
+
+                def t_norm(mode=mode, canonize=canonize, lt=lt, eq=eq, seq=seq):
+                    r = tn.compute_norm(max_bond=CHI, cutoff=0.0, mode=mode, canonize=canonize, layer_tags=lt, equalize_norms=eq,
+                                        sequence=seq)
+                    return cmp_scalar(r, dn.norm2, dn.norm2, tol, "norm")
+
+                cx.check("PEPS.compute_norm (boundary contraction, untruncating) == <psi|psi>", p, t_norm)
+            multibond = (cyc is True and 2 in (Lx, Ly)) or (isinstance(cyc, tuple) and ((cyc[0] and Lx == 2) or (cyc[1] and Ly == 2)))
+            for bb, eq, inplace in ((False, False, False), (True, False, True), (False, True, False)):
+                if bb and multibond:
+                    continue  # balance_bonds needs single bonds between neighbours (gauging is another property's business)
+
+                def t_nz(bb=bb, eq=eq, inplace=inplace):
+                    t0 = tn.copy()
+                    r = t0.normalize(max_bond=CHI, cutoff=0.0, balance_bonds=bb, equalize_norms=eq, inplace=inplace)
+                    if inplace and r is not t0:
+                        return "inplace=True returned a different object"
+                    if not inplace and not _tensors_equal(t0, tn):
+                        return "inplace=False modified the state"
+                    got = Dense(r)
+                    want = dn.psi / dn.norm2 ** 0.5
+                    if got.psi.shape != want.shape:
+                        return f"shape {got.psi.shape}"
+                    if np.abs(got.psi - want).max() > tol:
+                        return f"normalised state differs from psi/sqrt(<psi|psi>) by {np.abs(got.psi - want).max():.2e}"
+
+                cx.check("PEPS.normalize (boundary contraction, untruncating) returns psi / sqrt(<psi|psi>)",
+                         dict(base, balance_bonds=bb, equalize_norms=eq, inplace=inplace), t_nz)
+            # plaquette environments of the norm network
+            norm = tn.make_norm()
+            bszs = [(1, 1), (1, 2), (2, 1), (2, 2)]
+            for (xb, yb) in bszs:
+                if xb > Lx or yb > Ly or how != "none":
+                    continue  # (where a stored exponent of the state lives among the environments is not specified)
+                for fc, sd, lt in itertools.product((None, "x", "y"), (None, True, False), (None, ("KET", "BRA"))):
+                    if cx.quick and rng.random() < 0.7:
+                        continue
+                    p = dict(base, x_bsz=xb, y_bsz=yb, first_contract=fc, second_dense=sd, layered=lt is not None)
+
+                    def t_pe(xb=xb, yb=yb, fc=fc, sd=sd, lt=lt):
+                        envs = norm.compute_plaquette_environments(x_bsz=xb, y_bsz=yb, max_bond=CHI, cutoff=0.0, first_contract=fc,
+                                                                   second_dense=sd, layer_tags=lt)
+                        want = {((i, j), (xb, yb)) for i in range(Lx - xb + 1) for j in range(Ly - yb + 1)}
+                        if not want <= set(envs):
+                            return f"missing plaquettes {sorted(want - set(envs))[:3]}"
+                        for (i0, j0), (dx, dy) in sorted(want):
+                            env = envs[(i0, j0), (dx, dy)]
+                            inner = [t for i in range(i0, i0 + dx) for j in range(j0, j0 + dy)
+                                     for t in norm.select_tensors(norm.site_tag(i, j))]
+                            ops = [(np.asarray(t.data).astype(np.complex128), t.inds) for t in list(env.tensors) + inner]
+                            val = contract_dense(ops, []) * 10.0 ** float(env.exponent)
+                            e = cmp_scalar(val, dn.norm2, dn.norm2, tol, f"plaquette {((i0, j0), (dx, dy))}: env x plaquette")
+                            if e:
+                                return e
+
+                    cx.check("compute_plaquette_environments (untruncating): environment combined with its plaquette contracts to <psi|psi>",
+                             p, t_pe)
+    del qtn
+
+
+@driver("C13", "lattice-boundary-routes-3d", chunks=4, timeout=300,
+        bound="PEPS3D.partial_trace / partial_trace_cluster / compute_local_expectation on 2x2x2, 1x2x2, 2x1x2, 2x2x1, 1x1x3, "
+              "2x2x3 (thorough) lattices, bond 2 (3 on the smallest), site dim 2..3, 4 dtypes, stored exponents; max_bond=4096 "
+              "and cutoff=0; canonize on/off, flatten on/off, symmetrized auto/True/False, normalized or not, cell contraction "
+              "by boundary or compressed contraction, shared environment cache across terms, clusters with max_distance "
+              "spanning the lattice (plain or with simple-update gauges), 1..3 kept sites in any order")
+def lattice_3d(cx):
+    import warnings
+
+    warnings.filterwarnings("ignore")
+    rng = cx.rng
+    geos = [(2, 2, 2, 2, 2), (1, 2, 2, 2, 3), (2, 1, 2, 3, 2), (2, 2, 1, 2, 2), (1, 1, 3, 2, 2)]
+    if not cx.quick:
+        geos += [(2, 2, 2, 2, 3), (1, 2, 3, 2, 2), (2, 2, 3, 2, 2)]
+    expos = ["none", "attr", "equalize"]
+    for gi, (Lx, Ly, Lz, D, pd) in enumerate(geos):
+        for di, dtype in enumerate(DTYPES):
+            if (cx.quick or Lx * Ly * Lz > 8) and di >= 2 and (gi + di) % 2:
+                continue
+            how = expos[(gi + di) % 3]
+            if not cx.mine():
+                continue
+            if cx.out_of_time():
+                cx.inconclusive.append("lattice-boundary-routes-3d: time budget exhausted")
+                return
+            geo = ("peps3d", Lx, Ly, Lz, D, pd)
+            tn = build_state(rng, geo, dtype)
+            set_exponent(tn, rng, how, dtype)
+            base = dict(geo=geo_json(geo), dtype=dtype, exponent=how != "none", expo=how, unit_dim=1 in (Lx, Ly, Lz))
+            tol = tol_of(dtype, 30)
+            dn = Dense(tn)
+            n = len(dn.sites)
+            big = n > 8
+            wheres = pick_wheres(rng, dn.sites, count=3 if (cx.quick or big) else 5)
+            ops = {w: rand_op(rng, dn.dim(w)) for w in wheres}
+            for w in wheres:
+                grid = list(itertools.product((True, False), (False, True), ("boundary", "compressed"), (True, False)))
+                if cx.quick or big:
+                    grid = [grid[int(x)] for x in rng.permutation(len(grid))[:4]]
+                for canonize, flatten, ccm, nrm in grid:
+                    sym = ["auto", True, False][int(rng.integers(3))]
+                    forms = [("tuple", w)] + ([("bare-site", w[0])] if len(w) == 1 else [])
+                    for wform, warg in forms:
+                        p = dict(base, where=jw(w), where_form=wform, canonize=canonize, flatten=flatten, cell=ccm, normalized=nrm,
+                                 symmetrized=sym)
+
+                        def t_pt(w=w, warg=warg, canonize=canonize, flatten=flatten, ccm=ccm, nrm=nrm, sym=sym):
+                            kw = {}
+                            if ccm == "compressed":
+                                kw = dict(contract_cell_method="compressed", contract_cell_optimize="greedy")
+                            r = tn.partial_trace(warg, max_bond=CHI, cutoff=0.0, canonize=canonize, flatten=flatten, normalized=nrm,
+                                                 symmetrized=sym, **kw)
+                            return cmp_matrix(r, dn.rdm(w, nrm), 1.0 if nrm else dn.norm2, tol, "PEPS3D.partial_trace",
+                                              trace=1.0 if nrm else None)
+
+                        cx.check("PEPS3D.partial_trace (cell environments by boundary contraction, untruncating) == dense partial trace",
+                                 p, t_pt)
+                # cluster route
+                gsets = [("none", tn, False, dn)]
+                tg = tn.copy()
+                gauges = {}
+                try:
+                    tg.gauge_all_simple_(max_iterations=20, tol=1e-8, gauges=gauges)
+                    gsets.append(("simple-update", tg, gauges, Dense(tg, extra=[(g, ix) for ix, g in gauges.items()])))
+                except Exception:
+                    pass
+                for (gname, tnx, garg, dnx), flatten, nrm in itertools.product(gsets, (False, True), (True, False)):
+                    sym = ["auto", True, False][int(rng.integers(3))]
+                    p = dict(base, where=jw(w), gauges=gname, flatten=flatten, normalized=nrm, symmetrized=sym)
+
+                    def t_ptc(w=w, tnx=tnx, garg=garg, dnx=dnx, flatten=flatten, nrm=nrm, sym=sym, gname=gname):
+                        r = tnx.partial_trace_cluster(w, max_bond=CHI, cutoff=0.0, max_distance=n + 1, gauges=garg, flatten=flatten,
+                                                      normalized=nrm, symmetrized=sym)
+                        return cmp_matrix(r, dnx.rdm(w, nrm), 1.0 if nrm else dnx.norm2, tol * (1 if gname == "none" else 10),
+                                          "PEPS3D.partial_trace_cluster", trace=1.0 if nrm else None)
+
+                    cx.check("PEPS3D.partial_trace_cluster with a cluster spanning the lattice (untruncating) == dense partial trace",
+                             p, t_ptc)
+            terms = {w: ops[w] for w in wheres}
+            for nrm, ra, shared in itertools.product((True, False), (True, False), (True, False)):
+                def t_cle(nrm=nrm, ra=ra, shared=shared, terms=terms):
+                    kw = dict(envs={}) if shared else {}
+                    r = tn.compute_local_expectation(terms, max_bond=CHI, cutoff=0.0, normalized=nrm, return_all=ra, **kw)
+                    sc = max(dn.scale(G, nrm) for G in terms.values())
+                    refs = {w: dn.expec(G, w, nrm) for w, G in terms.items()}
+                    if not ra:
+                        return cmp_scalar(r, sum(refs.values()), sc * len(terms), tol, "sum of terms")
+                    if set(r) != set(terms):
+                        return f"keys {list(r)}"
+                    for w in terms:
+                        e = cmp_scalar(r[w], refs[w], sc, tol, f"term {w}")
+                        if e:
+                            return e
+
+                cx.check("PEPS3D.compute_local_expectation (untruncating) == dense values",
+                         dict(base, normalized=nrm, return_all=ra, shared_envs=shared, nterms=len(terms)), t_cle)
+
+
+# ----------------------------------------------------------------------------------------------
+# operator networks: trace and partial transpose
+# ----------------------------------------------------------------------------------------------
+
+def make_graph_operator(rng, n, dtype, extra_edges=0, labels="int", maxbond=3, dims=(2, 3)):
+    import quimb.tensor as qtn
+
+    names = list(range(n)) if labels == "int" else ([f"s{chr(97 + i)}" for i in range(n)] if labels == "str" else
+                                                     [(i, i + 1) for i in range(n)])
+    edges = set()
+    for i in range(1, n):
+        edges.add((int(rng.integers(0, i)), i))
+    cand = [(i, j) for i in range(n) for j in range(i + 1, n) if (i, j) not in edges]
+    for e in rng.permutation(len(cand))[:extra_edges]:
+        edges.add(cand[int(e)])
+    inds = {i: [] for i in range(n)}
+    shapes = {i: [] for i in range(n)}
+    for k, (i, j) in enumerate(sorted(edges)):
+        d = int(rng.integers(1, maxbond + 1))
+        for s in (i, j):
+            inds[s].append(f"_bnd{k}")
+            shapes[s].append(d)
+    ts = []
+    for i in range(n):
+        p = int(rng.choice(dims))
+        ii = inds[i] + ["k{}".format(names[i]), "b{}".format(names[i])]
+        sh = shapes[i] + [p, p]
+        perm = [int(x) for x in rng.permutation(len(ii))]
+        ts.append(qtn.Tensor(_rnd(rng, [sh[q] for q in perm], dtype), inds=[ii[q] for q in perm], tags=["I{}".format(names[i])]))
+    tn = qtn.TensorNetwork(ts)
+    tn.view_as_(qtn.TensorNetworkGenOperator, sites=names, site_tag_id="I{}", upper_ind_id="k{}", lower_ind_id="b{}")
+    return tn
+
+
+@driver("C13", "operator-trace-and-partial-transpose", chunks=2, timeout=200,
+        bound="TensorNetworkGenOperator.trace and partial_transpose on random operator networks: generic graphs <= 6 sites "
+              "(int / str / tuple site labels), MPO L<=6 open and periodic, PEPO 2x2 / 2x3; site dims 2..3 mixed, 4 dtypes, "
+              "stored exponents; sysa = single site (bare), tuples, all sites, generators; in-place and copy")
+def operator_routes(cx):
+    import warnings
+
+    import quimb.tensor as qtn
+
+    warnings.filterwarnings("ignore")
+    rng = cx.rng
+    kinds = [("graph", 1, 0, "int"), ("graph", 2, 0, "str"), ("graph", 4, 1, "tuple"), ("graph", 6, 2, "int"),
+             ("mpo", 1, False), ("mpo", 2, False), ("mpo", 5, False), ("mpo", 3, True), ("mpo", 6, True),
+             ("pepo", 2, 2), ("pepo", 2, 3)]
+    expos = ["none", "attr", "equalize"]
+    reps = 1 if cx.quick else 3
+    for (ki, kind), rep in itertools.product(enumerate(kinds), range(reps)):
+        for di, dtype in enumerate(DTYPES):
+            how = expos[(ki + di + rep) % 3]
+            if not cx.mine():
+                continue
+            if kind[0] == "graph":
+                A = make_graph_operator(rng, kind[1], dtype, extra_edges=kind[2], labels=kind[3])
+            elif kind[0] == "mpo":
+                A = qtn.MPO_rand(kind[1], int(rng.integers(1, 4)), phys_dim=int(rng.choice((2, 3))), cyclic=kind[2], dtype=dtype,
+                                 seed=int(rng.integers(1 << 30)), herm=False) if kind[1] > 1 or not kind[2] else None
+            else:
+                A = qtn.PEPO.rand(kind[1], kind[2], 2, phys_dim=2, dtype=dtype, seed=int(rng.integers(1 << 30)))
+            if A is None:
+                continue
+            set_exponent(A, rng, how, dtype)
+            sites = list(A.sites)
+            up = [A.upper_ind(s) for s in sites]
+            lo = [A.lower_ind(s) for s in sites]
+            X = dense_of(A, up + lo)
+            dims = X.shape[:len(sites)]
+            D = int(np.prod(dims, dtype=int))
+            M = X.reshape(D, D)
+            base = dict(kind=list(kind), dtype=dtype, exponent=how != "none", expo=how, rep=rep)
+            tol = tol_of(dtype, 3)
+            sc = float(np.linalg.norm(M)) + 1e-300
+
+            def t_tr():
+                return cmp_scalar(A.trace(), np.trace(M), sc * D ** 0.5, tol, "trace")
+
+            cx.check("TensorNetworkGenOperator.trace() == trace of the dense matrix (rows = upper indices)", base, t_tr)
+
+            def t_tr2():
+                return cmp_scalar(A.trace(left_inds=up, right_inds=lo), np.trace(M), sc * D ** 0.5, tol, "trace")
+
+            cx.check("TensorNetworkGenOperator.trace(left_inds, right_inds) given explicitly == trace of the dense matrix", base, t_tr2)
+            n = len(sites)
+            subsets = [("bare-site", sites[int(rng.integers(n))])]
+            subsets.append(("tuple", tuple(sites[int(x)] for x in rng.permutation(n)[:max(1, n // 2)])))
+            subsets.append(("all", tuple(sites)))
+            subsets.append(("list-reversed", list(reversed(sites))[: max(1, n - 1)]))
+            subsets.append(("generator", None))
+            for (sform, sysa), inplace in itertools.product(subsets, (False, True)):
+                if sform == "generator":
+                    chosen = [sites[int(x)] for x in rng.permutation(n)[:max(1, n - 1)]]
+                else:
+                    chosen = [sysa] if sform == "bare-site" else list(sysa)
+                p = dict(base, sysa_form=sform, nsys=len(chosen), inplace=inplace)
+
+                def t_pt(sform=sform, sysa=sysa, chosen=chosen, inplace=inplace):
+                    A0 = A.copy()
+                    arg = (s for s in chosen) if sform == "generator" else sysa
+                    R = A0.partial_transpose(arg, inplace=inplace)
+                    if inplace and R is not A0:
+                        return "inplace=True returned another object"
+                    if not inplace and not _tensors_equal(A0, A):
+                        return "inplace=False modified the operator"
+                    Y = dense_of(R, [R.upper_ind(s) for s in sites] + [R.lower_ind(s) for s in sites])
+                    ref = X
+                    for s in chosen:
+                        q = sites.index(s)
+                        ref = np.swapaxes(ref, q, n + q)
+                    if Y.shape != ref.shape:
+                        return f"shape {Y.shape} != {ref.shape}"
+                    if np.abs(Y - ref).max() > tol * sc:
+                        return f"partial transpose differs from the dense one by {np.abs(Y - ref).max():.2e}"
+
+                cx.check("TensorNetworkGenOperator.partial_transpose(sysa) == dense matrix with the row/column factors of sysa swapped",
+                         p, t_pt)
